@@ -38,6 +38,9 @@
 
 class BW_MidiSequencer
 {
+#ifdef OPNMIDI_VERIF
+    friend struct OPNMIDI_VerifAccess;
+#endif
     /**
      * @brief MIDI Event utility container
      */
